@@ -15,7 +15,7 @@ func main() {
 	rep.Assumptions = []string{"3 nodes, one database", "CRC64 collisions ignored"}
 	defer core.Cleanup()
 	repl.Main(rep, args, map[string]bool{"C06": true, "C09": true, "C01": true}, []repl.Stage{
-		{Name: "repl-forks-2n-3tx-2faults", Cfg: "MC_Repl_fork2.cfg", Timeout: 10 * time.Minute, MaxKeep: core.Pick(args, 60, 400), Forks: true},
+		{Name: "repl-forks-2n-3tx-2faults", Cfg: "MC_Repl_fork2.cfg", Timeout: 10 * time.Minute, MaxKeep: 0, Forks: true},
 		{Name: core.Pick(args, "repl-3n-2tx-2faults", "repl-3n-3tx-2faults"), Cfg: core.Pick(args, "MC_Repl_quick.cfg", "MC_Repl_fork.cfg"), Timeout: 15 * time.Minute, MaxKeep: core.Pick(args, 40, 500), Need: "Demote"},
 	})
 	repl.OfferedFiles(rep, args)
